@@ -877,6 +877,88 @@ def gen_break_program(seed):
     return p, spell_program(p)
 
 
+def gen_protocol_program(seed):
+    """result-code protocol family (C10/C01): a lexer-style loop whose case clauses end in *runs* of result-producing
+    actions - several yields in a row, a yield followed by finish, actions between and after yields - so that every code
+    must be reported exactly once, in order, and the parser finishes exactly when the source says so"""
+    r = random.Random(seed)
+    A = list(b'ab.(x')
+    outs = [{'name': 'n', 'type': 'int', 'signed': None, 'width': None, 'default': 0}]
+    ycodes = ['Y0', 'Y1', 'Y2']
+    fcodes = ['F0', 'F1']
+    inc = {'t': 'set', 'var': 'n', 'e': {'k': 'bin', 'op': '+', 'l': {'k': 'var', 'name': 'n'}, 'r': {'k': 'num', 'v': 1}}}
+
+    def run():
+        k = r.random()
+        acts = []
+        if k < 0.3:
+            acts = [{'t': 'yield', 'code': r.choice(ycodes)}, {'t': 'yield', 'code': r.choice(ycodes)}]
+        elif k < 0.55:
+            acts = [{'t': 'yield', 'code': r.choice(ycodes)}, {'t': 'finish', 'code': r.choice(fcodes + [None])}]
+        elif k < 0.75:
+            acts = [inc, {'t': 'yield', 'code': r.choice(ycodes)}, {'t': 'hook', 'n': 'h'}]
+        elif k < 0.9:
+            acts = [{'t': 'hook', 'n': 'h'}, {'t': 'yield', 'code': r.choice(ycodes)}, inc, {'t': 'yield', 'code': r.choice(ycodes)}]
+        else:
+            acts = [{'t': 'finish', 'code': r.choice(fcodes)}]
+        return acts
+    firsts = r.sample(A, r.randint(2, 4))
+    cl = []
+    for f in firsts:
+        pat = {'k': 'str', 'bytes': [f] + ([r.choice(A)] if r.random() < 0.3 else [])}
+        body = run()
+        if r.random() < 0.3:
+            body = body + [{'t': 'match', 'm': {'k': 'str', 'bytes': [r.choice(A)]}}] + (run() if r.random() < 0.5 else [])
+        cl.append({'ps': [pat], 'prio': 0, 'b': body})
+    if r.random() < 0.6:
+        anyb = {'t': 'match', 'm': {'k': 're', 'r': {'k': 'any'}, 'bin': False}}
+        cl.append({'ps': ['else'], 'prio': 0, 'b': r.choice([[anyb], [{'t': 'yield', 'code': 'Y2'}, anyb], [anyb, {'t': 'hook', 'n': 'h'}], [anyb, {'t': 'yield', 'code': 'Y2'}, {'t': 'yield', 'code': 'Y0'}]])})
+    body = [{'t': 'loop', 'name': None, 'b': [{'t': 'case', 'greedy': False, 'cl': cl}]}]
+    if r.random() < 0.3:
+        body = [{'t': 'match', 'm': {'k': 'str', 'bytes': [r.choice(b'pq')]}}] + run()[:2] + body
+    p = {'outs': outs, 'hooks': ['h'], 'fcodes': fcodes, 'ycodes': ycodes, 'macros': [], 'body': body, 'args': ['-fyield-support']}
+    return p, spell_program(p)
+
+
+def gen_range_program(seed):
+    """byte-set family (C05/C06/C12): case clauses and sets built from runs of consecutive bytes of various lengths with
+    gaps between them (short run before a long one, runs touching 0x00 / 0xff, single bytes), the shapes the range
+    collapsing of the code generator rewrites into interval tests"""
+    r = random.Random(seed)
+
+    def runs():
+        items, pos = [], r.choice([0, 1, 33, 48, 65, 97, 120, 200])
+        for _ in range(r.randint(2, 5)):
+            ln = r.choice([1, 1, 2, 3, 4, 5, 6, 9])
+            if pos + ln > 256:
+                break
+            items.append(['ch', pos] if ln == 1 else ['range', pos, pos + ln - 1])
+            pos += ln + r.choice([1, 1, 2, 5, 17])
+        if r.random() < 0.3:
+            items.append(['range', 250, 255])
+        return items
+    binary = True          # hex-pair spelling: every byte value can be written
+    sets = [runs() for _ in range(r.randint(1, 3))]
+    outs = [{'name': 'n', 'type': 'int', 'signed': None, 'width': None, 'default': 0}]
+    cl = []
+    used = set()
+    for i, it in enumerate(sets):
+        # clauses must be disjoint on their first byte
+        bs = set()
+        for x in it:
+            bs.update(range(x[1], (x[2] if x[0] == 'range' else x[1]) + 1))
+        if bs & used:
+            continue
+        used |= bs
+        cl.append({'ps': [{'k': 're', 'r': {'k': 'set', 'inv': False, 'items': it}, 'bin': binary}], 'prio': 0,
+                   'b': [{'t': 'set', 'var': 'n', 'e': {'k': 'num', 'v': i + 1}}, {'t': 'hook', 'n': 'h'}]})
+    cl.append({'ps': ['else'], 'prio': 0, 'b': [{'t': 'match', 'm': {'k': 're', 'r': {'k': 'any'}, 'bin': False}}, {'t': 'set', 'var': 'n', 'e': {'k': 'num', 'v': 9}}]})
+    inv = {'k': 're', 'r': {'k': 'set', 'inv': True, 'items': runs()}, 'bin': binary}
+    body = [{'t': 'loop', 'name': None, 'b': [{'t': 'case', 'greedy': False, 'cl': cl}, {'t': 'match', 'm': inv}, {'t': 'hook', 'n': 'h'}]}]
+    p = {'outs': outs, 'hooks': ['h'], 'fcodes': [], 'ycodes': [], 'macros': [], 'body': body, 'args': []}
+    return p, spell_program(p)
+
+
 def gen_boundary_program(seed):
     """capacity-boundary programs (C03): string sizes at the edges of the counter types, filled by a loop"""
     r = random.Random(seed)
